@@ -521,7 +521,7 @@ def validate_trace(module, cfg, cases, workdir, tag="t", max_reject=8, timeout=9
         if r.ok:
             break
         um = [p for (t, p) in r.printed if t == "UNMATCHED"]
-        if r.violated and not um:
+        if r.violated:   # an invariant violation takes precedence over the (then also failing) postcondition
             # an invariant of the design spec failed on a state of the trace: locate via l
             idx = None
             for st in r.cex[::-1]:
